@@ -484,6 +484,18 @@ func (x *X) specCall(env *SpecEnv, se *SpecExpr, call *ast.CallExpr) Value {
 			}
 		}
 		return x.specGo(&ne, se, call.Args[0])
+	case "at":
+		// at(NAME, expr): expr evaluated in the state remembered by `snapshot NAME ...`
+		id, ok := call.Args[0].(*ast.Ident)
+		if !ok || len(call.Args) != 2 {
+			fail("at(NAME, expr) expects a snapshot name in %q", se.Text)
+		}
+		if env.frame == nil || env.frame.snaps[id.Name] == nil {
+			fail("at(%s, ...): no such snapshot taken before this point in %q", id.Name, se.Text)
+		}
+		ne := *env
+		ne.st = env.frame.snaps[id.Name]
+		return x.specGo(&ne, se, call.Args[1])
 	case "len":
 		v := arg(0)
 		if len(v.C) == 1 && v.C[0].Sort == SBytes {
